@@ -1961,3 +1961,14 @@ package decimal128
 //@ ensures !SKIP && tag(err) == 0 && dv(B, len(B)) != 0 ==> (rs(V, 0) < 0.1 && coef(*d) == 0) || (rs(V, 0) >= 0.1 && RndOK(DefaultRoundingMode, NEG, rs(V, bexp(*d)), coef(*d), bexp(*d)))
 //@ call parseNumber[[]byte]#1: V = V
 //@ props C13 C20
+
+// MarshalJSON (C13, thin): NaN and infinities are refused with *json.UnsupportedValueError, finite
+// values never fail. The bytes produced by fmtE / fmtF are outside the contracts.
+//@ func Decimal.MarshalJSON
+//@ returns (out, err)
+//@ logical V real
+//@ requires !special(d) ==> V >= 0 && rs(V, bexp(d)) == coef(d)
+//@ call Decimal.digits#1: V = V
+//@ ensures special(d) ==> tag(err) == typetag("*encoding/json.UnsupportedValueError")
+//@ ensures !special(d) ==> tag(err) == 0
+//@ props C13 C20
